@@ -101,10 +101,35 @@ package sbom
 //@   invariant L4: (forall e *Edge :: (e in elems(ret.Edges)) ==> arr(e.To) != arr(ret.RootElements) || arr(e.To) == nil)
 
 //@ func NodeList.Intersect
-//@   props C11, C12
+//@   props C11, C12, C08, C10
 //@   requires nl2 != nil
 //@   assigns \nothing
 //@   owns
+//@   requires validNL(nl) && validNL(nl2)
+//@   ensures [C10:intersect:result] result != nil && fresh(result) && validNL(result)
+//@   ensures [C10:intersect:ids] forall x string :: (x in fieldset(result.Nodes, Id)) <==> ((x in fieldset(nl.Nodes, Id)) && (x in fieldset(nl2.Nodes, Id)))
+//@   ensures [C10:intersect:roots] forall r string :: (r in elems(result.RootElements)) <==> ((r in fieldset(result.Nodes, Id)) && ((r in elems(nl.RootElements)) || (r in elems(nl2.RootElements))))
+//@   ensures [C08:intersect:uniqueIds] forall i int, j int :: 0 <= i && i < j && j < len(result.Nodes) ==> result.Nodes[i].Id != result.Nodes[j].Id
+//@   ensures [C08:intersect:rootsClosed] closedRoots(result)
+//@   ensures [C08:intersect:edgesClosed] closedEdges(result)
+//@   ensures [C08:intersect:normalised] normalisedNL(result)
+//@   invariant L0: !(nil in elems(ret.Nodes)) && !(nil in elems(ret.Edges)) && (forall p *Node :: (p in elems(ret.Nodes)) ==> fresh(p))
+//@   invariant L0: (forall k string :: (k in ni1) <==> (k in fieldset(nl.Nodes, Id))) && (forall k string :: (k in ni2) <==> (k in fieldset(nl2.Nodes, Id))) && (forall k string :: (k in ni1) ==> ni1[k] != nil && ni1[k].Id == k) && (forall k string :: (k in ni2) ==> ni2[k] != nil && ni2[k].Id == k)
+//@   invariant L0: forall k string :: (k in _V) ==> (k in ni1)
+//@   invariant L0: (forall k string :: (k in rootElements) <==> (k in elems(nl.RootElements))) && (forall k string :: (k in rootElements2) <==> (k in elems(nl2.RootElements)))
+//@   invariant L0: (forall x string :: (x in fieldset(ret.Nodes, Id)) <==> ((x in _V) && (x in ni2)))
+//@   invariant L0: (forall r string :: (r in elems(ret.RootElements)) <==> ((r in _V) && (r in ni2) && ((r in rootElements) || (r in rootElements2))))
+//@   invariant L0: (forall i int, j int :: 0 <= i && i < j && j < len(ret.Nodes) ==> ret.Nodes[i].Id != ret.Nodes[j].Id) && (forall i int :: 0 <= i && i < len(ret.Nodes) ==> (ret.Nodes[i].Id in _V))
+//@   invariant L0: allocated(arr(ret.RootElements)) && (forall e *Edge :: (e in elems(ret.Edges)) ==> fresh(e) && allocated(e) && (arr(e.To) == nil || (fresh(arr(e.To)) && arr(e.To) != arr(ret.RootElements))))
+//@   invariant L1: !(nil in elems(ret.Edges))
+//@   invariant L1: allocated(arr(ret.RootElements)) && (forall e *Edge :: (e in elems(ret.Edges)) ==> fresh(e) && allocated(e) && (arr(e.To) == nil || (fresh(arr(e.To)) && arr(e.To) != arr(ret.RootElements))))
+//@   invariant L1: (forall r string :: (r in elems(ret.RootElements)) <==> ((r in fieldset(ret.Nodes, Id)) && ((r in elems(nl.RootElements)) || (r in elems(nl2.RootElements)))))
+//@   invariant L2: !(nil in elems(ret.Edges)) && existingEdge != nil && (existingEdge in elems(ret.Edges))
+//@   invariant L2: allocated(arr(ret.RootElements)) && (forall e *Edge :: (e in elems(ret.Edges)) ==> fresh(e) && allocated(e) && (arr(e.To) == nil || (fresh(arr(e.To)) && arr(e.To) != arr(ret.RootElements))))
+//@   invariant L2: (forall r string :: (r in elems(ret.RootElements)) <==> ((r in fieldset(ret.Nodes, Id)) && ((r in elems(nl.RootElements)) || (r in elems(nl2.RootElements)))))
+//@   invariant L3: !(nil in elems(ret.Edges)) && existingEdge != nil && (existingEdge in elems(ret.Edges)) && invDict != nil
+//@   invariant L3: allocated(arr(ret.RootElements)) && (forall e *Edge :: (e in elems(ret.Edges)) ==> fresh(e) && allocated(e) && (arr(e.To) == nil || (fresh(arr(e.To)) && arr(e.To) != arr(ret.RootElements))))
+//@   invariant L3: (forall r string :: (r in elems(ret.RootElements)) <==> ((r in fieldset(ret.Nodes, Id)) && ((r in elems(nl.RootElements)) || (r in elems(nl2.RootElements)))))
 
 // ---- comparing, hashing, flattening ----
 
